@@ -217,11 +217,10 @@ def judge(module: str, cases: list[dict], *, cfg: str | None = None, shard_size:
     scratch = scratch_dir()
     try:
         shards = []
-        nshards = max(1, min(max_parallel, (len(cases) + shard_size - 1) // shard_size))
-        # balance shards
-        per = (len(cases) + nshards - 1) // nshards
-        if per > shard_size:
-            per = shard_size
+        # use all cores: at most `shard_size` cases per JVM, at least ~20 (JVM start-up ~1 s)
+        nshards = max(1, min(max_parallel, (len(cases) + 19) // 20))
+        per = max((len(cases) + nshards - 1) // nshards, 1)
+        per = min(per, shard_size)
         for s in range(0, len(cases), per):
             shards.append((s, cases[s:s + per]))
         verdicts, info = {}, {}
